@@ -8,6 +8,7 @@ import (
 	"encoding/hex"
 	"encoding/json"
 	"fmt"
+	"go.uber.org/thriftrw/verifhook"
 	"math"
 	"os"
 	"strings"
@@ -26,7 +27,7 @@ import (
 var Check = &ev.Check{
 	ID:    "C12",
 	Level: "exploration",
-	Rule: "structured family: name in {a, Svc:method, 255*x, non-UTF8, NUL-containing, 65536*n; thorough +65535 and 65793 bytes} x envelope type 0..127 (all) x seqid in {0,1,-1,min,max} x body in {empty, one i32, nested struct+list} " +
+	Rule: "server family: internal/envelope.Server over internal/multiplex handlers (Svc, Svc:ns, Outer->Inner, empty) for 13 names with 0..3 colons x 2 framings x 5 seqids x 3 bodies, dispatch by the first colon, reply type/name/seqid/body; chains of <=2 multiplex clients over the envelope client x 5 method names against that server. structured family: name in {a, Svc:method, 255*x, non-UTF8, NUL-containing, 65536*n; thorough +65535 and 65793 bytes} x envelope type 0..127 (all) x seqid in {0,1,-1,min,max} x body in {empty, one i32, nested struct+list} " +
 		"x framing {strict, legacy, bare} x expected type {Call, OneWay} x API {DecodeRequest, ReadRequest} x reader {non-seekable, seekable} x read segmentations (all <=2-cut chunkings for messages <=24 bytes; " +
 		"whole, all-1-byte, first-read-1-byte, zero-length reads and every single cut beyond); plus envelope encode/decode round trips through the value and stream APIs against ref/tbin bytes. " +
 		"classification family: every byte string of length<=5 (quick) / <=6 (thorough) over {00,01,02,04,08,0b,0c,0f,7f,80,81,ff} under all <=2-cut chunkings. " +
@@ -391,6 +392,191 @@ func (r *runner) classify(msg []byte, et int8) {
 	}
 }
 
+// ---- family (c): the envelope server and the multiplexer around it.
+// Reference: a multiplexed name is <service>:<method>, split at the FIRST colon; the
+// server answers Reply (2) with the handler's body or Exception (3) for an unknown
+// service / a name without a colon, always echoing the full request name and the seqid.
+
+type recHandler struct {
+	svc  string
+	seen *[]string
+}
+
+func (h recHandler) Handle(name string, body wire.Value) (wire.Value, error) {
+	*h.seen = append(*h.seen, h.svc+"<-"+name)
+	return body, nil
+}
+
+type serverTransport struct {
+	srv  verifhook.EnvelopeServer
+	sent *[][]byte
+}
+
+func (t serverTransport) Send(b []byte) ([]byte, error) {
+	*t.sent = append(*t.sent, append([]byte{}, b...))
+	return t.srv.Handle(b)
+}
+
+var muxNames = []string{"Svc:ping", "Svc:ns:ping", "Svc::ping", "Svc:ping:", "Svc:", ":ping", "Outer:Inner:ping", "Outer:Inner:a:b", "Unknown:ping", "nocolon", "Svc:ns", "svc:ping", "Svc:ns:"}
+
+func (r *runner) multiplexFamily() {
+	w := r.w
+	for _, name := range muxNames {
+		for _, framing := range []string{tbin.FramingStrict, tbin.FramingLegacy} {
+			for _, seq := range []int32{0, 1, -1, math.MinInt32, math.MaxInt32} {
+				for bi, body := range bodies {
+					if !w.Own() {
+						continue
+					}
+					w.Eval(1)
+					w.Nontrivial(1)
+					w.Count("multiplex_server_cases", 1)
+					var seen []string
+					inner := verifhook.NewMultiplexHandler()
+					inner.Put("Inner", recHandler{"Outer/Inner", &seen})
+					mux := verifhook.NewMultiplexHandler()
+					mux.Put("Svc", recHandler{"Svc", &seen})
+					mux.Put("Svc:ns", recHandler{"Svc:ns", &seen}) // unreachable by a first-colon split
+					mux.Put("Outer", inner)
+					mux.Put("", recHandler{"<empty>", &seen})
+					srv := verifhook.NewEnvelopeServer(binary.Default, mux)
+					env := tbin.Envelope{Name: []byte(name), Type: 1, SeqID: seq}
+					var msg []byte
+					if framing == tbin.FramingStrict {
+						msg = tbin.EncodeStrict(env, tbin.Encode(body))
+					} else {
+						msg = tbin.EncodeLegacy(env, tbin.Encode(body))
+					}
+					desc := fmt.Sprintf("server: name=%q framing=%s seqid=%d body#%d", name, framing, seq, bi)
+					rep := map[string]interface{}{"name": name, "framing": framing, "seqid": seq, "msg": hex.EncodeToString(msg)}
+					var out []byte
+					var err error
+					var pan interface{}
+					func() {
+						defer func() { pan = recover() }()
+						out, err = srv.Handle(msg)
+					}()
+					if pan != nil {
+						w.Violation("server-panic", fmt.Sprintf("%s: %v", desc, pan), rep)
+						continue
+					}
+					if err != nil {
+						w.Violation("server-error", fmt.Sprintf("%s: a well-formed call was answered with an error instead of an envelope: %v", desc, err), rep)
+						continue
+					}
+					// reference dispatch
+					wantType, wantSeen := int8(3), ""
+					if i := strings.Index(name, ":"); i >= 0 {
+						svc, method := name[:i], name[i+1:]
+						switch svc {
+						case "Svc":
+							wantType, wantSeen = 2, "Svc<-"+method
+						case "":
+							wantType, wantSeen = 2, "<empty><-"+method
+						case "Outer":
+							if j := strings.Index(method, ":"); j >= 0 && method[:j] == "Inner" {
+								wantType, wantSeen = 2, "Outer/Inner<-"+method[j+1:]
+							}
+						}
+					}
+					renv, _, off, derr := tbin.DecodeEnvelope(out)
+					if derr != nil {
+						w.Violation("server-reply-malformed", fmt.Sprintf("%s: reply %x is not an envelope: %v", desc, out, derr), rep)
+						continue
+					}
+					got := strings.Join(seen, ",")
+					switch {
+					case string(renv.Name) != name || renv.SeqID != seq:
+						w.Violation("server-echo", fmt.Sprintf("%s: reply carries name %q seqid %d", desc, renv.Name, renv.SeqID), rep)
+					case renv.Type != wantType:
+						w.Violation("server-reply-type", fmt.Sprintf("%s: reply type %d, the dispatch rule (split at the first colon) gives %d; handlers reached: [%s]", desc, renv.Type, wantType, got), rep)
+					case got != wantSeen:
+						w.Violation("server-dispatch", fmt.Sprintf("%s: handlers reached [%s], the dispatch rule (split at the first colon) gives [%s]", desc, got, wantSeen), rep)
+					case wantType == 2 && !bytes.Equal(out[off:], tbin.Encode(body)):
+						w.Violation("server-body", fmt.Sprintf("%s: reply body %x, the handler returned the request body %x", desc, out[off:], tbin.Encode(body)), rep)
+					default:
+						w.Outcome(fmt.Sprintf("server-reply-type-%d", renv.Type))
+					}
+				}
+			}
+		}
+	}
+	// clients: every chain of <=2 multiplexing clients over the envelope client, against the same server
+	for _, chain := range [][]string{{}, {"Svc"}, {"Outer", "Inner"}, {"Inner", "Outer"}, {"Unknown"}, {"Svc:ns"}, {""}} {
+		for _, method := range []string{"ping", "ns:ping", ":ping", "ping:", ""} {
+			if !w.Own() {
+				continue
+			}
+			w.Eval(1)
+			w.Nontrivial(1)
+			w.Count("multiplex_client_cases", 1)
+			var seen []string
+			var sent [][]byte
+			inner := verifhook.NewMultiplexHandler()
+			inner.Put("Inner", recHandler{"Outer/Inner", &seen})
+			mux := verifhook.NewMultiplexHandler()
+			mux.Put("Svc", recHandler{"Svc", &seen})
+			mux.Put("Outer", inner)
+			srv := verifhook.NewEnvelopeServer(binary.Default, mux)
+			var cl verifhook.EnvelopeClient = verifhook.NewEnvelopeClient(binary.Default, serverTransport{srv, &sent})
+			// the client built last is the outermost: Send prefixes its own name and passes the call inwards
+			wantName := method
+			for i := 0; i < len(chain); i++ {
+				cl = verifhook.NewMultiplexClient(chain[i], cl)
+			}
+			for i := len(chain) - 1; i >= 0; i-- {
+				wantName = chain[i] + ":" + wantName
+			}
+			desc := fmt.Sprintf("client chain %v method %q", chain, method)
+			rep := map[string]interface{}{"chain": chain, "method": method}
+			var res wire.Value
+			var err error
+			var pan interface{}
+			func() {
+				defer func() { pan = recover() }()
+				res, err = cl.Send(method, wirex.ToWire(bodies[1]))
+			}()
+			if pan != nil {
+				w.Violation("client-panic", fmt.Sprintf("%s: %v", desc, pan), rep)
+				continue
+			}
+			if len(sent) != 1 {
+				w.Violation("client-sends", fmt.Sprintf("%s: %d requests reached the transport", desc, len(sent)), rep)
+				continue
+			}
+			env, _, off, derr := tbin.DecodeEnvelope(sent[0])
+			if derr != nil || string(env.Name) != wantName || env.Type != 1 || !bytes.Equal(sent[0][off:], tbin.Encode(bodies[1])) {
+				w.Violation("client-request", fmt.Sprintf("%s: request on the wire has name %q type %d (err %v); expected a Call named %q with the body unchanged", desc, env.Name, env.Type, derr, wantName), rep)
+				continue
+			}
+			// what the reference dispatch does with wantName
+			ok := false
+			if i := strings.Index(wantName, ":"); i >= 0 {
+				svc, m := wantName[:i], wantName[i+1:]
+				if svc == "Svc" {
+					ok = true
+				}
+				if svc == "Outer" {
+					if j := strings.Index(m, ":"); j >= 0 && m[:j] == "Inner" {
+						ok = true
+					}
+				}
+			}
+			if ok != (err == nil) {
+				w.Violation("client-result", fmt.Sprintf("%s: Send returned err=%v, the call named %q should succeed=%v", desc, err, wantName, ok), rep)
+				continue
+			}
+			if ok {
+				if mv, ferr := wirex.FromWire(res); ferr != nil || mv.Key() != bodies[1].Key() {
+					w.Violation("client-response-body", fmt.Sprintf("%s: response body differs from what the handler returned", desc), rep)
+					continue
+				}
+			}
+			w.Outcome("client-ok")
+		}
+	}
+}
+
 func names(thorough bool) [][]byte {
 	out := [][]byte{[]byte("a"), []byte("Svc:method"), bytes.Repeat([]byte("x"), 255), {0xff, 0xfe}, {'a', 0, 'b'}}
 	// the upper end of the name domain: 2^16 bytes is the first length whose second
@@ -467,6 +653,7 @@ func run(w *ev.W) {
 			}
 		}
 	}
+	r.multiplexFamily()
 	// the empty name: noted only
 	if w.Shard == 0 {
 		msg := tbin.EncodeLegacy(tbin.Envelope{Name: nil, Type: 1, SeqID: 1}, tbin.Encode(bodies[1]))
